@@ -50,6 +50,10 @@ type c12Scenario struct {
 	Prep    []Op         `json:"prep"`
 	Writer  []c12WOp     `json:"writer"`
 	Readers [][]c12Query `json:"readers"`
+	// Writer2: operations of a second mutating goroutine (arguments prepared from the same
+	// pre-state as Writer's). With two mutators the oracle is: the outcome (errors and final
+	// state) equals the sequential outcome of Writer;Writer2 or of Writer2;Writer.
+	Writer2 []c12WOp `json:"writer2,omitempty"`
 }
 
 type c12Case struct {
@@ -334,6 +338,7 @@ type c12Exec struct {
 	wev      []c12Event   // writer ops
 	rev      [][]c12Event // reader queries per thread
 	werr     []string
+	w2err    []string
 	disc     []string
 	finalKey string
 	problems []string // harness-level problems (divergence, overrun)
@@ -374,6 +379,20 @@ func c12Run(sc c12Scenario, prefix []int) (*c12Exec, error) {
 			}
 		})
 	}
+	if len(sc.Writer2) > 0 {
+		w2calls, err := ci.prepareWriter(sc.Writer2)
+		if err != nil {
+			return nil, err
+		}
+		ex.w2err = make([]string, len(w2calls))
+		s.Spawn(func() {
+			for i, w := range w2calls {
+				if err := w.call(); err != nil {
+					ex.w2err[i] = err.Error()
+				}
+			}
+		})
+	}
 	s.Run(prefix)
 	ci.h.s = nil
 	ci.h.lock.Attach(nil)
@@ -396,10 +415,78 @@ type c12Expect struct {
 	res      [][][]string // [state][thread][query]
 	finalKey string
 	werr     []string
+	// two mutators: the sequential outcomes of both orders
+	orders []c12Order
+}
+
+type c12Order struct {
+	name     string
+	werr     []string
+	w2err    []string
+	finalKey string
+}
+
+// c12SeqOrder runs Writer and Writer2 sequentially in the given order on a fresh instance (as the
+// single thread of a scheduler, see c12Expected).
+func c12SeqOrder(sc c12Scenario, firstIsWriter bool) (*c12Order, error) {
+	ci, err := c12New(sc)
+	if err != nil {
+		return nil, err
+	}
+	w1, err := ci.prepareWriter(sc.Writer)
+	if err != nil {
+		return nil, err
+	}
+	w2, err := ci.prepareWriter(sc.Writer2)
+	if err != nil {
+		return nil, err
+	}
+	o := &c12Order{name: "writer;writer2", werr: make([]string, len(w1)), w2err: make([]string, len(w2))}
+	if !firstIsWriter {
+		o.name = "writer2;writer"
+	}
+	sq := &vs.Sched{MaxSteps: 200000}
+	ci.h.s = sq
+	ci.h.lock = ci.m.VerifLock()
+	ci.h.lock.Attach(sq)
+	runList := func(ws []wcall, errs []string) {
+		for i, w := range ws {
+			if err := w.call(); err != nil {
+				errs[i] = err.Error()
+			}
+		}
+	}
+	th := sq.Spawn(func() {
+		if firstIsWriter {
+			runList(w1, o.werr)
+			runList(w2, o.w2err)
+		} else {
+			runList(w2, o.w2err)
+			runList(w1, o.werr)
+		}
+	})
+	sq.Run(nil)
+	ci.h.s = nil
+	ci.h.lock.Attach(nil)
+	if sq.Deadlock || sq.Overrun || th.Panic != nil {
+		return nil, fmt.Errorf("SEQUENTIAL: the operations do not complete even without concurrency (deadlock=%v panic=%v) in order %s", sq.Deadlock, th.Panic, o.name)
+	}
+	o.finalKey = DumpMap(ci.m)
+	return o, nil
 }
 
 func c12Expected(sc c12Scenario) (*c12Expect, error) {
 	e := &c12Expect{}
+	if len(sc.Writer2) > 0 {
+		for _, first := range []bool{true, false} {
+			o, err := c12SeqOrder(sc, first)
+			if err != nil {
+				return nil, err
+			}
+			e.orders = append(e.orders, *o)
+		}
+		return e, nil
+	}
 	for k := 0; k <= len(sc.Writer); k++ {
 		ci, err := c12New(sc)
 		if err != nil {
@@ -483,6 +570,18 @@ func c12Check(sc c12Scenario, ex *c12Exec, exp *c12Expect) [][2]string {
 	if len(out) > 0 {
 		return out
 	}
+	if len(exp.orders) > 0 {
+		match := false
+		for _, o := range exp.orders {
+			if fmt.Sprint(errFlags(ex.werr)) == fmt.Sprint(errFlags(o.werr)) && fmt.Sprint(errFlags(ex.w2err)) == fmt.Sprint(errFlags(o.w2err)) && ex.finalKey == o.finalKey {
+				match = true
+			}
+		}
+		if !match {
+			add("two mutating goroutines: the outcome equals neither sequential order", fmt.Sprintf("errors %v / %v; sequential: %s errors %v / %v, %s errors %v / %v", errFlags(ex.werr), errFlags(ex.w2err), exp.orders[0].name, errFlags(exp.orders[0].werr), errFlags(exp.orders[0].w2err), exp.orders[1].name, errFlags(exp.orders[1].werr), errFlags(exp.orders[1].w2err)))
+		}
+		return out
+	}
 	for i := range ex.werr {
 		if ex.werr[i] != exp.werr[i] {
 			add("a writer operation's outcome differs from the sequential run", fmt.Sprintf("op %d (%s): concurrent %q sequential %q", i, sc.Writer[i].Kind, ex.werr[i], exp.werr[i]))
@@ -564,6 +663,14 @@ func c12Check(sc c12Scenario, ex *c12Exec, exp *c12Expect) [][2]string {
 	}
 	if ex.finalKey != exp.finalKey {
 		add("the final state differs from the sequential post-state", "")
+	}
+	return out
+}
+
+func errFlags(es []string) []bool {
+	out := make([]bool, len(es))
+	for i, e := range es {
+		out[i] = e != ""
 	}
 	return out
 }
@@ -733,6 +840,22 @@ func c12Scenarios(thorough bool) []c12Scenario {
 			}
 		}
 	}
+	// two mutating goroutines: a block concurrent with Verify(remember) / VerifyPartialProof(remember)
+	// / Prune of leaves that exist before the block (not Ingest: it documents that the caller must
+	// have verified the proof against the current state, which a concurrent block invalidates)
+	two := []c12Scenario{
+		{Name: "2w/partial5none/verify-root-leaf|add3", TR: 63, Mode: "none", Prep: []Op{blk(nil, 5)},
+			Writer: []c12WOp{{Kind: "verify", Set: []int{4}}}, Writer2: []c12WOp{{Kind: "modify", Adds: 3}}},
+		{Name: "2w/partial6none/verify|del+add", TR: 0, Mode: "none", Prep: []Op{blk(nil, 6), blk([]int{3}, 0)},
+			Writer: []c12WOp{{Kind: "verify", Set: []int{0, 5}}}, Writer2: []c12WOp{{Kind: "modify", Dels: nil, Adds: 2}}},
+		{Name: "2w/partial6none/partialproof|add", TR: 63, Mode: "none", Prep: []Op{blk(nil, 6)},
+			Writer: []c12WOp{{Kind: "partialproof", Set: []int{2}}}, Writer2: []c12WOp{{Kind: "modify", Adds: 2}}},
+		{Name: "2w/partial4all/prune|del+add", TR: 0, Mode: "all", Prep: []Op{blk(nil, 4)},
+			Writer: []c12WOp{{Kind: "prune", Set: []int{2}}}, Writer2: []c12WOp{{Kind: "modify", Dels: []int{0}, Adds: 1}}},
+		{Name: "2w/full5/verify|add3", Full: true, TR: 0, Prep: []Op{blk(nil, 5)},
+			Writer: []c12WOp{{Kind: "verify", Set: []int{4}}}, Writer2: []c12WOp{{Kind: "modify", Adds: 3}}},
+	}
+	out = append(out, two...)
 	return out
 }
 
@@ -767,7 +890,7 @@ func init() {
 func checkC12(c *Ctx) {
 	bound := pick(c, 2, 3)
 	scs := c12Scenarios(c.Thorough())
-	c.Cov.Rule = "scenario = prepared MapPollard state (full/partial, zombie roots, climbed leaves, several TotalRows) x writer program (Modify with deletions and additions crossing a power of two, Modify+Undo, Verify(remember), VerifyPartialProof(remember), Ingest, Prune, Read of another state's bytes, and programs that start with rejected calls - wrong hash, missing proof - so that error paths release the lock) x reader programs (one or two queries on one or two threads from GetRoots, GetStump, Prove, Verify, GetLeafPosition, GetLeafHashPositions, GetHash, GetMissingPositions, GetNumLeaves, GetTreeRows, Write); for every scenario every schedule with at most `bound` preemptions is executed on the real code under a cooperative scheduler whose points are thread start/end, every RWMutex operation, every Nodes/CachedLeaves access and every sink write; oracle per execution: no panic, no deadlock, lock discipline at every map access, every query result equal to the sequential result in a whole-block state admissible for its call/return interval with a consistent order (brute force), final state equal to the sequential post-state; plus a separate free-running -race pass over the same scenarios; states = scenarios, transitions = executions (schedules), non-trivial = executions with at least one preemption"
+	c.Cov.Rule = "scenario = prepared MapPollard state (full/partial, zombie roots, climbed leaves, several TotalRows) x writer program (Modify with deletions and additions crossing a power of two, Modify+Undo, Verify(remember), VerifyPartialProof(remember), Ingest, Prune, Read of another state's bytes, and programs that start with rejected calls - wrong hash, missing proof - so that error paths release the lock) x reader programs (one or two queries on one or two threads from GetRoots, GetStump, Prove, Verify, GetLeafPosition, GetLeafHashPositions, GetHash, GetMissingPositions, GetNumLeaves, GetTreeRows, Write); for every scenario every schedule with at most `bound` preemptions is executed on the real code under a cooperative scheduler whose points are thread start/end, every RWMutex operation, every Nodes/CachedLeaves access and every sink write; oracle per execution: no panic, no deadlock, lock discipline at every map access, every query result equal to the sequential result in a whole-block state admissible for its call/return interval with a consistent order (brute force), final state equal to the sequential post-state; a few scenarios run two mutating goroutines (a block concurrent with Verify(remember), VerifyPartialProof(remember) or Prune) and require the outcome to equal one of the two sequential orders; plus a separate free-running -race pass over the same scenarios; states = scenarios, transitions = executions (schedules), non-trivial = executions with at least one preemption"
 	c.Cov.Bound["preemption_bound"] = bound
 	c.Cov.Bound["scenarios"] = len(scs)
 	perScenarioCap := int64(pick(c, 100000, 5000000))
